@@ -57,18 +57,17 @@ impl FrameStore {
     }
 
     pub fn index_of_seq(&self, seq: u64) -> Option<usize> {
-        let len = self.frames.len();
-        if len == 0 {
-            return None;
+        // Fast path: contiguous seqs starting at `base_seq`.
+        if seq >= self.base_seq {
+            if let Ok(idx) = usize::try_from(seq - self.base_seq) {
+                if self.frames.get(idx).is_some_and(|event| event.seq == seq) {
+                    return Some(idx);
+                }
+            }
         }
-        if seq < self.base_seq {
-            return None;
-        }
-        let idx = usize::try_from(seq - self.base_seq).ok()?;
-        if idx >= len {
-            return None;
-        }
-        Some(idx)
+        // Gaps, repeats or mixed streams break the offset arithmetic; scan so a lookup never
+        // resolves to a frame with a different seq.
+        self.frames.iter().position(|event| event.seq == seq)
     }
 }
 
